@@ -66,6 +66,38 @@ func TestMeasureRandom(t *testing.T) {
 				w.write(J{"ev": "ResetOp", "trace": k})
 				continue
 			}
+			if r.chance(1, 9) {
+				// Update: the operation sees a value and returns one; what it saw and returned is part of the record
+				opk := r.intn(3)
+				mkop := func(arg, out *float64) func(float64) float64 {
+					return func(v float64) float64 {
+						*arg = v
+						switch {
+						case v == 0:
+							*out = 3
+						case opk == 0:
+							*out = v * 2
+						case opk == 1:
+							*out = v / 2
+						default:
+							*out = v + 3
+						}
+						return *out
+					}
+				}
+				var arg, out, targ, tout float64
+				before := m.Get()
+				m.Update(mkop(&arg, &out))
+				twin.Update(mkop(&targ, &tout))
+				bb, bcls := fbits(before)
+				ab, acls := fbits(arg)
+				ob, ocls := fbits(out)
+				vb, cls := fbits(m.Get())
+				tb, tcls := fbits(twin.Get())
+				w.write(J{"ev": "Update", "trace": k, "before": bb, "beforecls": bcls, "arg": ab, "argcls": acls, "out": ob, "outcls": ocls,
+					"val": vb, "cls": cls, "twin": tb, "twincls": tcls})
+				continue
+			}
 			var x float64
 			switch r.intn(4) {
 			case 0:
